@@ -841,6 +841,9 @@ def rule_variational_transport(ctx, rule='R16.11'):
 
 
 def run(ctx):
+    from . import c09 as _c09b, serial as _serial
+    _c09b.rule_keep_unsynchronized(ctx)     # R09.3: the cached coordinates of the variational particles are rolled back with those of the real ones
+    _serial.rule_R05_2(ctx)                 # R05.2: the MEGNO accumulators are persisted under their own names
     from . import edges
     edges.rule_threshold_siblings(ctx, 'R01.13')     # one quantity, one literal, one line: variation of test particle 0
     edges.rule_time_direction(ctx, 'R08.12')         # time may be negative and may run backwards: MEGNO for backward integrations
